@@ -24,9 +24,25 @@ func (x *Exec) evalAs(e ast.Expr, env *Env, want types.Type) Term {
 		if t.Sort != ws && t.Sort != "" && strings.HasPrefix(string(ws), "U_") {
 			t = x.coerce(t, ws)
 			if t.Sort != ws {
-				// e.g. a concrete value stored in an interface-typed slot: injective-unknown embedding
-				t = x.opaqueFrom(t, ws)
-				t.GoT = want
+				// a concrete value stored in an interface-typed slot: an injective embedding per concrete Go type;
+				// the dynamic type of the box is that type and the type assertion gives the value back
+				ct := x.cx.info.TypeOf(e)
+				_, wantIface := want.Underlying().(*types.Interface)
+				_, isIface := (types.Type)(nil), false
+				if ct != nil {
+					_, isIface = ct.Underlying().(*types.Interface)
+				}
+				if wantIface && ct != nil && !isIface && !x.termMode && x.noFacts == 0 {
+					name := "box_" + sanitize(types.TypeString(ct, nil)) + "_to_" + sanitize(string(ws))
+					x.W.DeclareFun(name, []Sort{t.Sort}, ws)
+					b := T("("+name+" "+t.S+")", ws)
+					b.GoT = want
+					x.W.AddFact(env.pc, And(x.dynTypeIs(b, ct), Eq(x.dynValue(b, ct), t)))
+					t = b
+				} else {
+					t = x.opaqueFrom(t, ws)
+					t.GoT = want
+				}
 			}
 		}
 	}
